@@ -2316,6 +2316,61 @@ def c11j(F, R):
     else:
         R.bad("shared-non-entry", "NodeInManyFunctions is only pushed for nodes that are function entries: two functions that share a tail (`fn_a: ..; j tail` / `fn_b: ..` falling into `tail: ..; ret`) share instructions without any diagnostic - the sharing is reported when an entry happens to lie in it, not when it exists", loc(pushes[0]))
 
+@rule("C09", "C09.n.a-rewritten-node-keeps-its-own-place", floor=1)
+@rule("C11", "C11.k.a-rewritten-node-keeps-its-own-place", floor=1)
+def c09n(F, R):
+    """when the function markup replaces an instruction by another one (a further `ret` of a function becomes a jump to the function's exit), the new node carries the token - file, range, text - of the instruction it replaces: every diagnostic about that line is located through it. Built with the token of the *other* return, whatever is reported about the second `ret` appears on the first"""
+    n = 0
+    for q, g in sorted(F.fns.items()):
+        if "hir" not in g or "::gen::" not in q:
+            continue
+        body = g["hir"]["value"]
+        lets = {}
+        for st in walk(body, pats=False):
+            if st.get("k") == "Let" and st["pat"].get("k") == "PBinding" and st.get("init") is not None:
+                lets[st["pat"]["name"]] = st["init"]
+
+        def root(e, depth=0):
+            """the node a value is taken from: follows method receivers, `&`, `Rc::clone(&x)` and named locals"""
+            e = peel(e)
+            while True:
+                if e.get("k") in ("AddrOf",) or (e.get("k") == "Unary" and e.get("op") == "Deref"):
+                    e = peel(e.get("e") or e.get("a"))
+                elif e.get("k") == "MethodCall":
+                    e = peel(e["recv"])
+                elif e.get("k") == "Call" and short(callee_of(e) or "") == "clone" and e["args"]:
+                    e = peel(e["args"][0])
+                else:
+                    break
+            if e.get("k") == "Path" and e.get("res_kind") == "Local":
+                nm = e["res"]
+                if nm in lets and depth < 4:
+                    r = root(lets[nm], depth + 1)
+                    # an alias (`let found = Rc::clone(&node)`) stands for what it clones; anything else is its own origin
+                    ini = peel(lets[nm])
+                    if ini.get("k") == "Call" and short(callee_of(ini) or "") == "clone":
+                        return r
+                return nm
+            return None
+        for m in walk(body, pats=False):
+            if m.get("k") != "MethodCall" or m["name"] != "set_node" or not m["args"]:
+                continue
+            target = root(m["recv"])
+            newn = peel(m["args"][0])
+            ctor = peel(lets[newn["res"]]) if newn.get("k") == "Path" and newn.get("res") in lets else newn
+            if ctor.get("k") != "Call" or not ctor.get("args"):
+                continue
+            n += 1
+            tok = ctor["args"][-1]
+            src = root(tok)
+            key = f"{short(q.split('::{closure')[0])}|set_node#{n}"
+            if src is not None and src == target:
+                R.ok(key, detail=f"the node put in place of `{target}` carries `{target}`'s own token", where=loc(m))
+            else:
+                R.bad(f"{short(q.split('::{closure')[0])}|foreign-token", f"the node that replaces `{target}` is built with the token of `{src}`: its file, range and text are those of another instruction, so a diagnostic about the replaced line (a second `ret` in the data segment, say) is reported - twice - on the first `ret`", loc(ctor))
+    if n == 0:
+        raise Anchor("no node replacement (`set_node`) found in the graph passes")
+
 
 @rule("C11", "C11.f.markup-runs-on-the-pruned-graph", floor=1)
 @rule("C12", "C12.f.markup-runs-on-the-pruned-graph", floor=1)
